@@ -336,11 +336,12 @@ impl ManyToOneRingBuffer {
 
         let (padding, tail_index) = loop {
             let tail = self.buffer.get_volatile::<i64>(self.tail_position);
-            let available_capacity = self.capacity - (tail - head) as Index;
+            // positions are 64-bit: compare before narrowing, a stale head must never look recent
+            let available_capacity = self.capacity as i64 - (tail - head);
 
-            if required_capacity > available_capacity {
+            if required_capacity as i64 > available_capacity {
                 head = self.buffer.get_volatile::<i64>(self.head_position);
-                if required_capacity > (self.capacity - (tail - head) as Index) {
+                if required_capacity as i64 > (self.capacity as i64 - (tail - head)) {
                     return Err(RingBufferError::InsufficientCapacity);
                 }
                 self.buffer.put_ordered::<i64>(self.head_cache_position, head);
